@@ -991,25 +991,6 @@ def init (c : CaseCfg) : W :=
   let w := w.growPool c.n   -- pre_start builds workers 0..n-1 exactly like grow_pool on an empty pool
   W.emit { w with poolSize := c.n } (.hook .started)
 
-/-! ## `JobOptions` on the wire (`BytesConvertable for JobOptions`, ractor's `cluster` feature)
-
-16 bytes: submit time and TTL, both nanoseconds as big-endian `u64`; a TTL field of 0 means "no TTL". -/
-
-def U64_MAX : Nat := 2 ^ 64 - 1
-
-/-- the TTL field `into_bytes` writes (finding F14, fixed: a TTL of zero is written as 1 ns and a TTL beyond the
-`u64` range as `u64::MAX`, instead of 0 = "no TTL" resp. the low 64 bits) -/
-def ttlToWire : Option Nat → Nat
-  | none => 0
-  | some t => max 1 (min t U64_MAX)
-
-/-- the TTL `from_bytes` reads from the field -/
-def ttlFromWire (n : Nat) : Option Nat := if n > 0 then some n else none
-
-/-- `from_bytes` of an arbitrary byte string (a string that is not 16 bytes long yields the default options) -/
-def ttlOfBytes (bs : List Nat) : Option Nat :=
-  if bs.length != 16 then none else ttlFromWire ((bs.drop 8).foldl (fun a b => a * 256 + b) 0)
-
 /-! ## The histories excluded by finding F4 (stale completion) -/
 
 /-- keys of the `Finished` reports of slot `wid` that wait in the factory's mailbox -/
